@@ -39,6 +39,7 @@ def _c11_case(c):
                 ls.append({"title": lt, "tag": int(nxt())})
             pushes.append({"kind": "M", "layers": ls})
         else:
+            how = int(nxt()) if k == "F" else 0
             title = unhex(nxt())
             es = []
             for _ in range(int(nxt())):
@@ -59,6 +60,8 @@ def _c11_case(c):
                 if tm:
                     es[-1]["time"] = tm
             pushes.append({"kind": "U", "title": title, "entries": es})
+            if how:
+                pushes[-1]["fail"] = how
     return {"prep": prep, "pushes": pushes, "preserve": preserve}
 
 
@@ -128,6 +131,7 @@ def _c11_vm_goal(case, out):
                 ls.append("(%s, %d%%N)" % (lt, int(nxt())))
             ops.append("PManifest %s" % _vm_list(ls, "(str * N)"))
         else:
+            how = int(nxt()) if k == "F" else 0
             title = _vm_hexstr(nxt())
             es, tms = [], []
             for _ in range(int(nxt())):
@@ -145,7 +149,10 @@ def _c11_vm_goal(case, out):
                 else:
                     es.append("EOther %s" % _vm_hexstr(nxt()))
                 tms.append("%d%%N" % int(nxt()))
-            ops.append("PDir %s %s %s" % (title, _vm_list(tms, "N"), _vm_list(es, "entry")))
+            if how:
+                ops.append("PDirF %d%%N %s %s %s" % (how, title, _vm_list(tms, "N"), _vm_list(es, "entry")))
+            else:
+                ops.append("PDir %s %s %s" % (title, _vm_list(tms, "N"), _vm_list(es, "entry")))
     verdicts, _, listing = out.partition("|")
     oks = _vm_list(["true" if c == "O" else "false" for c in verdicts[0::9]], "bool")
     paths, views = [], []
